@@ -16,7 +16,7 @@ if [ -n "${SFSED:-}" ]; then
   EXTRA=$(printf ',"%s/%s/%s":"%s"' "$REPO" "$PKG" "$f" "$TMPF")
 fi
 printf '{"Replace":{"%s/%s/zz_sfreplay_test.go":"%s"%s}}' "$REPO" "$PKG" "$DRV" "$EXTRA" > "$OV"
-cd "$REPO" && env "$@" GOFLAGS=-mod=mod GOPROXY=off GOSUMDB=off GOTOOLCHAIN=local go test ${SFRACE:+-race} -overlay "$OV" -vet=off -count=1 -timeout 120s -ldflags=-checklinkname=0 -run "^$TEST\$" -v "./$PKG" 2>&1
+cd "$REPO" && env "$@" GOFLAGS=-mod=mod GOPROXY=off GOSUMDB=off GOTOOLCHAIN=local go test ${SFRACE:+-race} -overlay "$OV" -vet=off -count=1 -timeout ${SFTIMEOUT:-120s} -ldflags=-checklinkname=0 -run "^$TEST\$" -v "./$PKG" 2>&1
 rc=$?
 rm -f "$OV" $TMPF
 cd "$REPO" && git checkout -q go.mod go.sum 2>/dev/null
